@@ -1,5 +1,6 @@
 /* C04 - trust-anchor policies say OK only if the calendar root is bound to the anchor */
 #include "anchor_fix.h"
+#include <time.h>
 
 enum { X_OK = 0, X_FAIL, X_INCONCLUSIVE, X_NOT_OK, X_SILENT };
 typedef struct { int cls; int code; } expect_t;
@@ -356,6 +357,16 @@ static void run(void) {
 	for (form = 0; form < 4; form++) for (broken = 0; broken < 3; broken++) for (k = 0; k < K_NKIND; k++) for (src = 0; src < SRC_NSRC; src++) {
 		if (!vf_case_begin("key:form%d:broken%d:%s:%s", form, broken, KNAME[k], SNAME[src])) continue;
 		key_case(KSI_VERIFICATION_POLICY_KEY_BASED, "key-policy", form, broken, k, src);
+		vf_case_end(1);
+	}
+	/* the same validity windows with the process in a time zone east / west of UTC: certificate times are UTC whatever the zone */
+	for (k = 0; k < K_NKIND; k++) for (src = 0; src < 2; src++) {
+		static const char *TZS[2] = {"EET-2", "PST8"};
+		if (!vf_case_begin("key-tz:%s:%s:%s", TZS[src], KNAME[k], SNAME[0])) continue;
+		setenv("TZ", TZS[src], 1); tzset();
+		key_case(KSI_VERIFICATION_POLICY_KEY_BASED, "key-policy", 3, 0, k, 0);
+		setenv("TZ", "UTC", 1); tzset();
+		vf_outcome("key:time-zone-%s", TZS[src]);
 		vf_case_end(1);
 	}
 	/* under the general policy (no user publication; the file holds only an earlier publication and extending is not allowed,
